@@ -60,7 +60,7 @@ P = {
          "Partial: real serial timing; virtual clock.", "Lean 4 proof (well-founded loop over the deadline + parser refinement) + differential correspondence", "§7 C18"),
  'C19': ("Theorems C19.render_total (every renderer, every value, fresh/decoded/edited, over generated string tables), frame_text_total, level_irrelevant, level_irrelevant_any, cfgitem_text_total. Tie: exhaustive over the rendered byte of every renderer; str() of every class; requests with real frame classes at DEBUG vs disabled.",
          "R7: stale derived text is not a violation; f-string formatting trusted.", "Lean 4 proof (bounds of masked table indices over generated tables) + exhaustive renderer correspondence", "§7 C19"),
- 'C20': ("Theorems C20.devices_go (= decision table for every list), line/chunk_never_raises, decision_table, enabled_iff_selected, only_requested. Tie: _parse_gpsd_msg on JSON of every shape through the real json/str machinery; setup()/_transmit over stub sockets.",
+ 'C20': ("Theorems C20.devices_go (= decision table for every list), line/chunk_never_raises, decision_table, enabled_iff_selected, only_requested, and over the handshake loop: ready_chunk (ready <=> a device is selected, for every input), enable_ready (setup() does not return before that), addressed_to_selected (a command after setup() is '&' + the selected device + '=' + hex). Tie: _parse_gpsd_msg on JSON of every shape through the real json/str machinery; setup()/_transmit over stub sockets.",
          "Partial: gpsd itself; json.loads/splitlines/decode trusted (the model is handed their per-line outcome); termination of _enable() not claimed.",
          "Lean 4 proof (decision table + invariants over chunk histories) + differential correspondence", "§7 C20"),
 }
